@@ -33,6 +33,16 @@ type Recorder struct {
 
 func NewRecorder(run *vx.Run) *Recorder { return &Recorder{run: run} }
 
+// Count records a generator statistic (goroutine-safe).
+func (r *Recorder) Count(k string) {
+	r.mu.Lock()
+	r.run.Count(k)
+	r.mu.Unlock()
+}
+
+// Cases returns the number of scenarios started so far.
+func (r *Recorder) Cases() int { r.mu.Lock(); defer r.mu.Unlock(); return r.cases }
+
 // ErrDropped is what a client sees for a request (or response) the fault script swallowed: an ordinary transport error.
 var ErrDropped = errors.New("verif: rpc dropped")
 
@@ -44,8 +54,9 @@ type Options struct {
 	Stores  int           // 1 (default) or more: every region has one peer on every store
 	Splits  [][]byte      // initial region boundaries (raw keys)
 	Seed    uint64        // scheduler seed
-	Settle  time.Duration // scheduler settle delay (default 150µs)
+	Settle  time.Duration // scheduler settle delay (default 100µs)
 	StartMs int64         // initial physical clock (default 1000)
+	MaxRPCs int           // RPC budget of the scenario (default 2000): beyond it the scenario is reported as hung
 }
 
 // World = one scenario: a fresh mock cluster + MVCC store + PD with a virtual clock, a gate/scheduler, and logical clients
@@ -75,7 +86,10 @@ func NewWorld(rec *Recorder, opt Options) *World {
 		opt.Stores = 1
 	}
 	if opt.Settle == 0 {
-		opt.Settle = 150 * time.Microsecond
+		opt.Settle = 100 * time.Microsecond
+	}
+	if opt.MaxRPCs == 0 {
+		opt.MaxRPCs = 2000
 	}
 	if opt.StartMs == 0 {
 		opt.StartMs = 1000
@@ -257,8 +271,8 @@ func (f *vfut) Wait() (int64, int64, error) {
 	return f.p.w.nextTS(f.p.c)
 }
 
-func (p *vpd) GetTS(context.Context) (int64, int64, error)      { return p.w.nextTS(p.c) }
-func (p *vpd) GetTSAsync(context.Context) tso.TSFuture          { return &vfut{p: p} }
+func (p *vpd) GetTS(context.Context) (int64, int64, error) { return p.w.nextTS(p.c) }
+func (p *vpd) GetTSAsync(context.Context) tso.TSFuture     { return &vfut{p: p} }
 func (p *vpd) GetLocalTS(context.Context, string) (int64, int64, error) {
 	return p.w.nextTS(p.c)
 }
@@ -274,7 +288,7 @@ func (p *vpd) GetLocalTSWithinKeyspaceAsync(context.Context, string, uint32) tso
 	return &vfut{p: p}
 }
 func (p *vpd) WithCallerComponent(caller.Component) pd.Client { return p }
-func (p *vpd) Close()                                          {}
+func (p *vpd) Close()                                         {}
 
 // ---------------------------------------------------------------- clients
 
@@ -309,12 +323,12 @@ func (w *World) NewClient(name string) *Client {
 	return c
 }
 
-func (c *Client) Name() string          { return c.name }
-func (c *Client) Store() *tikv.KVStore  { return c.store }
-func (c *Client) Crashed() bool         { return c.crashed.Load() }
-func (c *Client) RPCs() int             { return int(c.rpcs.Load()) }
-func (c *Client) InCall() bool          { return c.inCall.Load() > 0 }
-func (w *World) Gate() *Gate            { return w.gate }
+func (c *Client) Name() string              { return c.name }
+func (c *Client) Store() *tikv.KVStore      { return c.store }
+func (c *Client) Crashed() bool             { return c.crashed.Load() }
+func (c *Client) RPCs() int                 { return int(c.rpcs.Load()) }
+func (c *Client) InCall() bool              { return c.inCall.Load() > 0 }
+func (w *World) Gate() *Gate                { return w.gate }
 func (w *World) Cluster() *mocktikv.Cluster { return w.cluster }
 
 // Crash marks the client dead: its pending and future RPCs are never executed (`norpc … dropped`), its goroutines are abandoned.
@@ -370,7 +384,7 @@ func (w *World) WaitDrained(timeout time.Duration) bool {
 		} else {
 			stable = 0
 		}
-		time.Sleep(500 * time.Microsecond)
+		Pause(150 * time.Microsecond)
 	}
 	return false
 }
